@@ -1167,6 +1167,35 @@ def antlr_defaults(tier):
     return out, 'installed antlr4 runtime source'
 
 
+def rule_token_kinds_keep_their_class(cm, rep, rid):
+    rep.rule(rid, 'value flow from tokens to syntax-tree nodes: a number node is built only from the text of a NUMERAL token, and the '
+                  'text of a NUMERAL token never becomes an atom name - whether a literal is a number is decided by how it is '
+                  'written (1 vs \'1\'), not by what its text looks like after unquoting')
+    fl = cm.flow
+    num = [k for k in fl.pts if k[0] == 'F' and k[1].split('.')[-1] == 'NumeralTerm']
+    atom = [k for k in fl.pts if k[0] == 'F' and k[1] == 'yp_prolog_visitor.Atom']
+    if not num:
+        raise AnalysisError('anchor vanished: no value reaches a field of NumeralTerm (flow)')
+    n = 0
+    for k in num:
+        for v in fl.pts[k]:
+            n += 1
+            key = '%s.%s<-%s' % (k[1].split('.')[-1], k[2], _short(v))
+            if v[0] == 'str' and isinstance(v[1], tuple) and v[1][:2] == ('tok', 'NUMERAL'):
+                rep.ok(rid, key, 'the text of a NUMERAL token', None)
+            elif v[0] == 'int':
+                rep.ok(rid, key, 'an integer', None, nontrivial=False)
+            else:
+                rep.violation(rid, key, 'a number node is built from %s: text that was not written as a number (a quoted atom such as '
+                              '\'2024\') can be compiled to an integer, which does not unify with the atom of that name' % _short(v), cm.repo.cls(*k[1].split('.', 1)).loc())
+    for k in atom:
+        for v in fl.pts[k]:
+            if v[0] == 'str' and isinstance(v[1], tuple) and v[1][:2] == ('tok', 'NUMERAL'):
+                rep.violation(rid, 'Atom.%s<-NUMERAL' % k[2], 'the text of a NUMERAL token becomes an atom name: the literal 1 denotes the atom '
+                              '\'1\' there instead of the integer', cm.repo.cls('yp_prolog_visitor', 'Atom').loc())
+    rep.minimum('values reaching number nodes', n, 1)
+
+
 def rule_codecs_strict(cm, rep, rid):
     rep.rule(rid, 'between bytes and text nothing is lost or rewritten, and nothing depends on the process: in the compiler module '
                   'no decode/encode/open/stream call asks for a lenient error handler (errors=ignore/replace/backslashreplace..), '
